@@ -2,6 +2,8 @@ import CC.Lemmas.Prims
 import CC.Lemmas.Refresh
 import CC.Lemmas.Rev
 import CC.Lemmas.Rotation
+import CC.Lemmas.Issued
+import CC.Lemmas.Contig
 /-! # C04 — key rotation: refreshed keys follow the master key, stale keys fall behind -/
 
 namespace CC.Props.C04
@@ -89,6 +91,72 @@ theorem refreshed_key_follows (w : World) (hw : Reachable w) (usk : Usk) (keep :
   fun r c hm =>
     let ⟨mchain, h1, h2, h3, _⟩ := refresh_secrets_spec w.msk usk keep w.rng (reachable_nonEmpty w hw) hok r c hm
     ⟨mchain, h1, h2, h3⟩
+
+/-- **`keep old secrets`, over every history.** A key generated in any reachable world, then any
+sequence of operations with any arguments on the master key (rekeys — partial or repeated —,
+prunes, structure edits and updates, other key generations and refreshes), then a refresh of that
+key with `keep old secrets`: the refresh succeeds, and every secret the key held that the master
+key still holds for that right is still in the refreshed key. -/
+theorem keep_refresh_keeps_secrets (w : World) (hw : Reachable w) (p : AP) (rights : List Right)
+    (hr : w.msk.structure_.uskRights p = .ok rights) (usk : Usk)
+    (hk : (uskKeygen w.msk rights w.rng).1 = .ok usk) (ops : List Op) :
+    let w' := ops.foldl World.step (w.step (.keygen p))
+    (refresh w'.msk usk true w'.rng).1 = .ok () ∧
+    ∀ r u, (r, u) ∈ usk.secrets → ∀ mc, w'.msk.secrets.lookup r = some mc →
+      ∀ s ∈ u, s ∈ mc.map (·.2) → ∃ c', (r, c') ∈ (refresh w'.msk usk true w'.rng).2.2.1.secrets ∧ s ∈ c' := by
+  intro w'
+  have hstep : w.step (.keygen p) = ⟨(uskKeygen w.msk rights w.rng).2.1, (uskKeygen w.msk rights w.rng).2.2⟩ := by
+    simp only [World.step, hr]
+  have hr1 : Reachable (w.step (.keygen p)) := by
+    obtain ⟨n, ops0, rfl⟩ := hw
+    exact ⟨n, ops0 ++ [.keygen p], by simp [List.foldl_append]⟩
+  have hreach : Reachable w' := by
+    obtain ⟨n, ops0, rfl⟩ := hw
+    exact ⟨n, ops0 ++ [.keygen p] ++ ops, by simp [w', List.foldl_append]⟩
+  have hi : Issued (w.step (.keygen p)).msk usk := by
+    rw [hstep]; exact keygen_issues w.msk rights w.rng usk hk
+  have hi' : Issued w'.msk usk := issued_stable _ ops usk hi
+  have hok := issued_refresh_ok w' hreach usk hi' true
+  have ht : Tracks w' usk := steps_tracks ops _ hr1 usk (keygen_tracks w hw p rights hr usk hk)
+  exact ⟨hok, tracks_refresh_keeps w' hreach usk ht hi'.2.2 hok⟩
+
+/-- … hence it **still opens every encapsulation it could open before the refresh**, unless the
+secret through which it opened it was removed from the master key (pruned, or its right deleted):
+if the key opens `x` through a secret `k` of its chain of right `r`, and the master key still
+holds `k` for `r`, the refreshed key opens `x` and recovers the same secret. -/
+theorem keep_refresh_still_opens (w : World) (hw : Reachable w) (p : AP) (rights : List Right)
+    (hr : w.msk.structure_.uskRights p = .ok rights) (usk : Usk)
+    (hk : (uskKeygen w.msk rights w.rng).1 = .ok usk) (ops : List Op) (x : XEnc)
+    (hshape : usk.auth = x.auth ∧ usk.nps = x.ntraps ∧ usk.id.length = x.ntraps)
+    (r : Right) (u : List Sk) (k t : Sk) (hm : (r, u) ∈ usk.secrets) (hku : k ∈ u) (ht : t ∈ x.targets)
+    (hopen : opens x.hybrid k t = true) (mc : List (Bool × Sk))
+    (hl : (ops.foldl World.step (w.step (.keygen p))).msk.secrets.lookup r = some mc) (hstill : k ∈ mc.map (·.2)) :
+    decaps usk x = some x.seed ∧
+    decaps (refresh (ops.foldl World.step (w.step (.keygen p))).msk usk true
+      (ops.foldl World.step (w.step (.keygen p))).rng).2.2.1 x = some x.seed := by
+  obtain ⟨hok, hkeep⟩ := keep_refresh_keeps_secrets w hw p rights hr usk hk ops
+  obtain ⟨c', hc', hkc'⟩ := hkeep r u hm mc hl k hku hstill
+  refine ⟨(decaps_eq_some_iff _ _ _).2 ⟨rfl, hshape.1, hshape.2.1, hshape.2.2, r, u, k, t, hm, hku, ht, hopen⟩, ?_⟩
+  have hstep : w.step (.keygen p) = ⟨(uskKeygen w.msk rights w.rng).2.1, (uskKeygen w.msk rights w.rng).2.2⟩ := by
+    simp only [World.step, hr]
+  have hi : Issued (w.step (.keygen p)).msk usk := by
+    rw [hstep]; exact keygen_issues w.msk rights w.rng usk hk
+  have hi' := issued_stable _ ops usk hi
+  obtain ⟨ha, hn, hid, _⟩ := refresh_keep_shape _ usk _ hok hi'.2.2
+  refine (decaps_eq_some_iff _ _ _).2 ⟨rfl, ?_, ?_, ?_, r, c', k, t, hc', hkc', ht, hopen⟩
+  · rw [ha]; exact hshape.1
+  · rw [hn]; exact hshape.2.1
+  · rw [hid]; exact hshape.2.2
+
+/-- the same holds for a key produced by a refresh (with either flag) instead of a key generation:
+it tracks the master key from then on -/
+theorem refreshed_key_tracks (w : World) (hw : Reachable w) (usk : Usk) (keep : Bool)
+    (hok : (refresh w.msk usk keep w.rng).1 = .ok ()) (ops : List Op) :
+    Tracks (ops.foldl World.step (w.step (.refresh usk keep))) (refresh w.msk usk keep w.rng).2.2.1 := by
+  have hr1 : Reachable (w.step (.refresh usk keep)) := by
+    obtain ⟨n, ops0, rfl⟩ := hw
+    exact ⟨n, ops0 ++ [.refresh usk keep], by simp [List.foldl_append]⟩
+  exact steps_tracks ops _ hr1 _ (refresh_tracks w hw usk keep hok)
 
 /-- non-vacuity: log [9,7,5,3]; master holds all four; the user held [5,3] -/
 example : refreshChain [⟨9, false⟩, ⟨7, false⟩, ⟨5, false⟩, ⟨3, false⟩] [⟨5, false⟩, ⟨3, false⟩] =
